@@ -737,6 +737,11 @@ def judge_skeleton(sk: Skeleton, analysed: List[Analysed]) -> List[Result]:
             continue
         assert a.root is not None
         J.results.append(Result("X.compiles", True, "Yaml2Regex.produce_regex", "", sk.label))
+        same_in = getattr(a, "input_before", None) == getattr(a, "input_after", None)
+        J.results.append(Result("X.input-unmodified", same_in, "Yaml2Regex._generate_rule_tree",
+                                "the loaded rule document is modified by compiling it" if not same_in else "",
+                                "compiling a rule leaves the loaded document as it was (it may be compiled again, "
+                                "and sub-trees may be shared by YAML aliases or macro bodies)", sk.label, "$and", "instr"))
         align(sk.root(), a.root, J)
         seen: List[str] = []
         for n in document_order(a.root):
